@@ -12,10 +12,10 @@
    P p k = bit k of port p of the stack = NSig [] p k; a terminal bit (stack_term) is a P p k with p in io, k < width p,
    or a U e p k with additionally 0 <= e < n.  same_net = the orbits under Spec/Nets.v:step meet (Spec/C01ENets.v).
 
-   Series ports of width w > 1: generators.py gives the private bus the width n - 1 (not (n-1)*w); that module
-   (series_design_code) is not a valid design (C19E_code_wide_rejected) and the implementation rejects the call; the theorems
-   for w > 1 are about the bit-by-bit chain series_design (private bus of width (n-1)*w), which for w = 1 IS the code's
-   module (C19E_design_is_model). *)
+   Series ports of width w > 1 are ordinary inputs: generators.py (fixes/C19W-1) gives the private bus the width (n-1)*w, so
+   series_design IS the module the code builds for every w (C19E_design_is_model) and C19E_exported_topology is about the
+   code's behaviour for wide pairs as well.  The PINNED generators.py gave the bus the width n - 1; that module
+   (series_design_code) is not a valid design for w > 1 (C19E_pinned_code_wide_refuted): why the pinned tree failed. *)
 From Coq Require Import String.
 Require Import Hdl21.Base.PyInt Hdl21.Spec.PySlice Hdl21.Model.Slice Hdl21.Model.Resolve Hdl21.Base.Design
                Hdl21.Spec.Nets Hdl21.Spec.WfDesign Hdl21.Spec.C01ENets Hdl21.Base.Package Hdl21.Base.PrimTable Hdl21.Spec.PkgWf
@@ -26,22 +26,29 @@ Require Import Hdl21.Base.PyInt Hdl21.Spec.PySlice Hdl21.Model.Slice Hdl21.Model
 Open Scope string_scope.
 Open Scope Z_scope.
 
-(* 1. THE DESIGN IS THE MODEL: for the inputs of Props/C19.v (wf_unit, n >= 2, distinct one-bit signal-valued ports a, b)
-      Model/C19Series.v:series_gen accepts, and series_design (w = 1) is the one-module design whose module is the model's
-      module - same ports, same private bus, same instance array, same connection expressions, same leaf table - under
-      the name mn and with the unit known as device dev (`named`).  So the theorems of Props/C19.v speak about this design.
-      The hypotheses of the theorems below (series_ok) follow when the array's name is no flattened bundle member
-      (always so for units without bundle-valued ports). *)
-Theorem C19E_design_is_model u a b n mn dev : wf_unit u = true -> 2 <= n -> a <> b ->
-  assoc a (u_sigs u) = Some 1 -> assoc b (u_sigs u) = Some 1 -> mn <> "" ->
+(* 1. THE DESIGN IS THE MODEL: for the inputs of Props/C19.v (wf_unit, n >= 2, distinct signal-valued ports a, b of ONE
+      width w - one bit or a bus) Model/C19Series.v:series_gen accepts, and series_design is the one-module design whose
+      module is the model's module - same ports, same private bus of width (n-1)*w, same instance array, same connection
+      expressions, same leaf table - under the name mn and with the unit known as device dev (`named`).  So the theorems of
+      Props/C19.v speak about this design.  The hypotheses of the theorems below (series_ok) follow when the array's name is
+      no flattened bundle member (always so for units without bundle-valued ports). *)
+Theorem C19E_design_is_model u a b w n mn dev : wf_unit u = true -> 2 <= n -> a <> b ->
+  assoc a (u_sigs u) = Some w -> assoc b (u_sigs u) = Some w -> mn <> "" ->
   exists iname uname,
     let nm := {| sn_mod := mn; sn_dev := dev; sn_i := iname; sn_units := uname |} in
-    series_gen u a b n = Ok (series_module u a b n iname uname) /\
-    series_design nm (unit_io u) a b 1 n = {| d_mods := [named mn dev (series_module u a b n iname uname)]; d_top := 0%nat |} /\
-    (mem uname (map fst (unit_io u)) = false -> series_ok nm (unit_io u) a b 1 n = true) /\
-    (u_buns u = [] -> series_ok nm (unit_io u) a b 1 n = true).
-Proof. exact (series_design_is_model u a b n mn dev). Qed.
+    series_gen u a b n = Ok (series_module u a b w n iname uname) /\
+    series_design nm (unit_io u) a b w n = {| d_mods := [named mn dev (series_module u a b w n iname uname)]; d_top := 0%nat |} /\
+    (mem uname (map fst (unit_io u)) = false -> series_ok nm (unit_io u) a b w n = true) /\
+    (u_buns u = [] -> series_ok nm (unit_io u) a b w n = true).
+Proof. exact (series_design_is_model u a b w n mn dev). Qed.
 Print Assumptions C19E_design_is_model.
+
+(* ... and series_design_code is the module of the PINNED generator (Model/C19Series.v:series_module_pinned) *)
+Theorem C19E_pinned_design_is_pinned_model u a b n iname uname mn dev :
+  series_design_code {| sn_mod := mn; sn_dev := dev; sn_i := iname; sn_units := uname |} (unit_io u) a b n
+  = {| d_mods := [named mn dev (series_module_pinned u a b n iname uname)]; d_top := 0%nat |}.
+Proof. exact (series_design_code_named u a b n iname uname mn dev). Qed.
+Print Assumptions C19E_pinned_design_is_pinned_model.
 
 Theorem C19E_wrapper_is_model u iname mn dev :
   wrapper_design {| sn_mod := mn; sn_dev := dev; sn_i := ""; sn_units := iname |} (unit_io u)
@@ -188,11 +195,12 @@ Theorem C19E_wrapper_exported_partial nm io xi p :
 Proof. intros H. exact (wrapper_exported nm io H xi p). Qed.
 Print Assumptions C19E_wrapper_exported_partial.
 
-(* 10. series ports wider than one bit: the module generators.py builds (private bus of width n - 1) is not a valid design *)
-Theorem C19E_code_wide_rejected nm io a b w n : series_ok nm io a b w n = true -> 2 <= w ->
+(* 10. why the pinned tree failed: for series ports wider than one bit the module the PINNED generators.py built (private
+       bus of width n - 1) is not a valid design - for EVERY such call (all n >= 2, all w >= 2) *)
+Theorem C19E_pinned_code_wide_refuted nm io a b w n : series_ok nm io a b w n = true -> 2 <= w ->
   wf_design (series_design_code nm io a b n) <> Ok tt.
 Proof. exact (series_code_wide_rejected nm io a b w n). Qed.
-Print Assumptions C19E_code_wide_rejected.
+Print Assumptions C19E_pinned_code_wide_refuted.
 
 (* 11. THE TERMINALS of the design as Spec/Nets.v:terminals computes them, for every n: exactly the bits of the stack's ports
        (device "") and the port bits of the n units (device = the unit) - so `stack_term` is the terminal list of the property;
@@ -352,9 +360,9 @@ Definition exw_io : list (name * Z) := [("a", 2); ("b", 2); ("c", 1)].
 Definition exw_xi : xinfo :=
   {| x_devs := [(dev_string exw_dev, exw_dev)]; x_ncnames := [("Wide", [])]; x_dirs := [("Wide", [("a", 3); ("b", 3); ("c", 3)])] |}.
 
-(* two-bit series ports, three units: hypotheses hold; the bit-by-bit design is exported with a 4-bit private bus (SliceResolver lists a slice of a
-   concatenation bit by bit, most significant first);
-   the module generators.py builds (2-bit bus) is rejected with a width error *)
+(* two-bit series ports, three units: hypotheses hold; the design (= what generators.py builds) is exported with a 4-bit private bus
+   (SliceResolver lists a slice of a concatenation bit by bit, most significant first);
+   the module the pinned generators.py built (2-bit bus) is rejected with a width error *)
 Example C19E_ex_wide : series_ok exw_nm exw_io "a" "b" 2 3 = true /\ xinfo_ok exw_xi (series_design exw_nm exw_io "a" "b" 2 3) = true /\
   wf_design (series_design_code exw_nm exw_io "a" "b" 3) = Error EWidth /\
   exists p top, elab_export_model2 exw_xi (series_design exw_nm exw_io "a" "b" 2 3) = Ok p /\ pk_mods p = [top] /\
